@@ -400,6 +400,27 @@ let handle line =
   | "IO" :: cid :: kind :: tid :: args ->
     let t = ty_get tid in
     Some (cid ^ " " ^ io_op t kind args)
+  | "P" :: cid :: pty :: op :: rest ->
+    let (be, n) = match pty with
+      | "le::U16" | "le::I16" -> (false, 2) | "le::U32" | "le::I32" | "le::F32" -> (false, 4)
+      | "le::U64" | "le::I64" | "le::F64" -> (false, 8)
+      | "be::U16" | "be::I16" -> (true, 2) | "be::U32" | "be::I32" | "be::F32" -> (true, 4)
+      | "be::U64" | "be::I64" | "be::F64" -> (true, 8)
+      | "Bool" -> (false, 1) | _ -> failwith "portable type" in
+    (match op, rest with
+     | "enc", a :: _ ->
+       let v = num_of_string a in
+       let v = if pty = "Bool" then (match v with N0 -> N0 | _ -> if int_of_n v land 1 = 1 then n_of_int 1 else N0) else v in
+       Some (Printf.sprintf "%s bytes=%s size=%d align=1" cid (hex_of_bytes (p_enc be (n_of_int n) v)) n)
+     | "dec", h :: _ ->
+       let bs = bytes_of_hex h in
+       if pty = "Bool" then
+         (match validate TBool N0 bs with
+          | Ok () -> Some (Printf.sprintf "%s bits=%s flatalign=1 flatsize=1" cid (hex_of_n (p_dec be bs)))
+          | _ -> Some (cid ^ " invalid"))
+       else Some (Printf.sprintf "%s bits=%s flatalign=1 flatsize=%d" cid (hex_of_n (p_dec be bs)) n)
+     | "val", h :: _ -> Some (cid ^ " " ^ res_s unit_s (validate TBool N0 (bytes_of_hex h)))
+     | _ -> Some (cid ^ " -"))
   | [""] | [] -> None
   | op :: _ -> failwith ("unknown op " ^ op)
 
